@@ -115,4 +115,45 @@ def replay(params, model, wd):
     v = concrete_index_violation(outl, offs, idx)
     if v:
         return {"reproduced": True, "key": "C10:index:" + v[0], "what": v[1], "files": {"gaf": lines, "output": outl}}
-    return {"reproduced": False, "detail": "real index matches", "index": idx}
+    # an offset that is computed instead of taken from tell() only shows on real files once the output spans several BGZF
+    # blocks (virtual offsets) - replay the same records, each repeated 1500 times, through --bgzip
+    big = big_bgzf(wd, paths, tags, nums)
+    if big:
+        return {"reproduced": True, "key": "C10:index:multi-block-bgzf", "what": big}
+    return {"reproduced": False, "detail": "real index matches (also on a multi-block BGZF output)", "index": idx}
+
+
+def big_bgzf(wd, paths, tags, nums, rep=1500):
+    import os
+    import pickle
+    import gaftools.cli.sort as S
+    from pysam import libcbgzf
+
+    g = F.write_graph(wd, tags)
+    gaf = os.path.join(wd, "big.gaf")
+    with open(gaf, "w") as fh:
+        for j in range(rep):
+            for i, p in enumerate(paths):
+                plen, ps, pe = nums[i]
+                fh.write("r%dx%d\t100\t0\t100\t+\t%s\t%d\t%d\t%d\t90\t100\t60\ttp:A:P\tzz:Z:%s\n" % (i, j, p, plen, ps, pe, "pad" * 12))
+    out = os.path.join(wd, "big.out.gaf.gz")
+    try:
+        S.run_sort(g, gaf, outgaf=out, bgzip=True)
+    except BaseException as e:  # noqa
+        return "run_sort --bgzip on %d records raised %s: %s" % (rep * len(paths), type(e).__name__, e)
+    idx = pickle.load(open(out + ".gsi", "rb"))
+    fh = libcbgzf.BGZFile(out, "rb")
+    first, last = {}, {}
+    while True:
+        o = fh.tell()
+        l = fh.readline()
+        if not l:
+            break
+        sn = [x[5:] for x in l.decode().rstrip().split("\t")[12:] if x.startswith("sn:Z:")][0]
+        first.setdefault(sn, o)
+        last[sn] = o
+    fh.close()
+    want = {sn: [first[sn], last[sn]] for sn in first if sn != "unknown"}
+    if dict(idx) != want:
+        return "multi-block BGZF output: index %r, offsets of the first/last record per contig are %r" % (dict(idx), want)
+    return None
